@@ -319,7 +319,19 @@ def timeline(run, rng, steps):
     nsubs = 1 if dense else rng.choice([1, 2, 3])
     procs = [1, 2, 3, 4] if dense else [1, 2]
     w = World(run, rng, nsubs, with_pc=rng.random() < 0.5)
+    if rng.random() < 0.4:
+        # subscribers that answer a confirmed notification a moment later (same instant, next turn of their loop): meanwhile
+        # the other notifications for their address wait in the device's queue
+        for sub in w.subs:
+            sub.app.defer_ack = True
+        run.count("timelines_with_subscribers_answering_a_turn_later")
     oids = sorted(w.objs)
+    if rng.random() < 0.3:
+        # a subscriber that has forgotten one of its process ids and refuses the confirmed notifications for it (it still got
+        # them): the other subscriptions of the same device are owed every change all the same
+        sub = rng.choice(w.subs)
+        sub.app.refuse_procs[rng.choice(procs)] = rng.choice(["error", "error", "reject", "abort"])
+        run.count("timelines_with_refusing_subscriber")
     for k in range(steps):
         r = rng.random()
         oid = rng.choice(oids) if not (dense and rng.random() < 0.6) else oids[0]
@@ -376,6 +388,53 @@ def timeline(run, rng, steps):
         run.count("timelines")
 
 
+def slow_subscriber(run, rng):
+    """a subscriber that takes a while to acknowledge: changes that happen meanwhile wait in the device's queue for that address;
+    every one of them is owed, and in the order it happened (the last notification tells the object's value)"""
+    w = World(run, rng, rng.choice([1, 2]), with_pc=False)
+    delay = rng.choice([0.3, 1.0, 2.0])
+    for sub in w.subs:
+        sub.app.ack_delay = delay
+    oid = rng.choice([("binaryValue", 1), ("multiStateValue", 1), ("analogValue", 1)])
+    o = w.objs[oid]
+    keys = []
+    for i in range(len(w.subs)):
+        for proc in rng.sample([1, 2, 3], rng.choice([1, 2])):
+            confirmed = rng.random() < 0.8
+            if not w.subscribe(i, proc, oid, confirmed, rng.choice([None, 0, 600])):
+                return
+            keys.append((i, proc, confirmed))
+            w.advance(delay + 0.5)
+    written = []
+    cur = w.value(oid)
+    for k in range(rng.choice([2, 3, 4, 6])):
+        if o["kind"] == "analog":
+            cur = f32(cur + rng.choice([-3, 2, 4]) * o["inc"])
+        elif o["kind"] == "binary":
+            cur = 1 - cur
+        else:
+            cur = rng.choice([v for v in range(1, 6) if v != cur])
+        o["obj"].presentValue = ("active" if cur else "inactive") if o["kind"] == "binary" else cur
+        written.append(cur)
+        w.hist.append(("write", oid, [cur], None, "direct", round(CLOCK.now - CLOCK.START, 2)))
+        CLOCK.drive(duration=rng.choice([0.01, 0.05, 0.2]))
+    CLOCK.drive(duration=(len(written) * len(keys) + 2) * (delay + 0.1) + 5.0)
+    got = w.collect()
+    run.count("slow_subscriber_sessions")
+    for i, proc, confirmed in keys:
+        vals = []
+        for j, n in got:
+            if j == i and n["proc"] == proc and n["obj"] == oid:
+                v = n["values"].get("presentValue")
+                vals.append(BinaryPV.enumerations.get(v, v) if isinstance(v, str) else (f32(v) if isinstance(v, float) else v))
+        run.count("notifications_checked", len(vals))
+        detail = dict(subscriber=i, proc=proc, confirmed=confirmed, written=repr(written), notified=repr(vals), unanswered_for=delay)
+        if sorted(map(repr, vals)) != sorted(map(repr, written)):
+            return w.fail("qualifying-change-not-notified/slow-subscriber" if len(vals) < len(written) else "change-notified-more-than-once/slow-subscriber", **detail)
+        if vals != written:
+            return w.fail("notifications-out-of-order/slow-subscriber", **detail)
+
+
 def main():
     run = Run("C16", "exploration", RULE, assumptions=[
         "'last reported value' of analog objects is read both per object and per subscriber: a notification is missing only if "
@@ -396,6 +455,9 @@ def main():
         steps = rng.choice([40, 80, 120])
         run.case(("timeline", run.shard[0], i), sample={"kind": "timeline", "steps": steps}, sample_key=("tl", steps))
         timeline(run, rng, steps)
+        if i % 2 == 0:
+            run.case(("slow", run.shard[0], i), sample={"kind": "slow-subscriber"}, sample_key=("slow",))
+            slow_subscriber(run, rng)
     run.finish(require=("timelines", "notifications_checked", "subscribes", "renewals", "cancels", "writes", "active_subscription_reads"))
 
 
